@@ -361,7 +361,7 @@ pub fn property() -> Property {
             "patterns",
             "grammar-generated brace patterns with instance / decoy / mutant names",
             case_strategy,
-            |t| t.pick(25_000, 1_000_000),
+            |t| t.pick(100_000, 1_000_000),
             check,
         ), crate::fuzz::replay_stream(),
         ],
